@@ -70,6 +70,51 @@ pub struct C17;
 
 pub const SIG_MANIFEST_SILENT: &str = "silent-difference:MANIFEST.json";
 
+/// Where two manifest texts differ, as a member path with array indices and numbers-in-names removed
+/// ("segments[].doc_count", "key:segments" when a member name itself changed, "not-json" when the altered text
+/// does not parse although it was accepted).
+pub fn manifest_diff_path(orig: &[u8], altered: &[u8]) -> String {
+  let (Ok(a), Ok(b)) = (serde_json::from_slice::<Value>(orig), serde_json::from_slice::<Value>(altered)) else { return "not-json".into() };
+  fn walk(a: &Value, b: &Value, path: &str) -> Option<String> {
+    match (a, b) {
+      (Value::Object(x), Value::Object(y)) => {
+        for k in x.keys() {
+          if !y.contains_key(k) {
+            return Some(format!("{path}key:{k}"));
+          }
+        }
+        for k in y.keys() {
+          if !x.contains_key(k) {
+            return Some(format!("{path}key:+{k}"));
+          }
+        }
+        for (k, v) in x.iter() {
+          if let Some(p) = walk(v, &y[k], &format!("{path}{k}.")) {
+            return Some(p);
+          }
+        }
+        None
+      }
+      (Value::Array(x), Value::Array(y)) => {
+        if x.len() != y.len() {
+          return Some(format!("{path}[len]"));
+        }
+        x.iter().zip(y.iter()).find_map(|(p, q)| walk(p, q, &format!("{}[].", path.trim_end_matches('.'))))
+      }
+      _ => {
+        if a == b {
+          None
+        } else {
+          Some(path.trim_end_matches('.').to_string())
+        }
+      }
+    }
+  }
+  let p = walk(&a, &b, "").unwrap_or_else(|| "same-value-other-text".into());
+  // segment ids / file names inside member names are data, not structure
+  p.chars().filter(|c| !c.is_ascii_digit()).collect::<String>().replace(' ', "_")
+}
+
 fn file_kind(name: &str) -> String {
   if name == "MANIFEST.json" || name == "wal.log" {
     return name.to_string();
@@ -370,7 +415,6 @@ impl Property for C17 {
       apply_ops(&mut s, &built.pending[..j]);
       allowed.push(s.iter().map(|(k, d)| (k.clone(), normal(&stored_projection(&schema, d)))).collect());
     }
-    let known_manifest = ctx.is_known(Self::ID, SIG_MANIFEST_SILENT);
     let self_contained = |t: &Trial| -> Option<Value> {
       let mut c = case.clone();
       c.corruptions.clear();
@@ -408,8 +452,17 @@ impl Property for C17 {
         }
         Ok(Ok(got)) => {
           if got != baseline {
-            let sig = format!("silent-difference:{kind}");
-            if sig == SIG_MANIFEST_SILENT && known_manifest {
+            let mut sig = format!("silent-difference:{kind}");
+            if sig == SIG_MANIFEST_SILENT {
+              // the manifest carries no checksum (listed finding); which member the altered byte belongs to is part
+              // of the signature, so that only the members listed in known_findings.txt are excused
+              sig = format!("{SIG_MANIFEST_SILENT}@{}", manifest_diff_path(&built.files[&t.file], &t.bytes));
+            }
+            let debug_collect = sig.starts_with(SIG_MANIFEST_SILENT) && std::env::var("VERIF_DEBUG_C17").is_ok();
+            if debug_collect {
+              eprintln!("C17-MANIFEST-SIG {sig}");
+            }
+            if sig.starts_with(SIG_MANIFEST_SILENT) && (ctx.is_known(Self::ID, &sig) || debug_collect) {
               out.excluded_known += 1;
               out.fail(sig, format!("results differ silently after corrupting {}", describe()));
             } else {
